@@ -31,7 +31,13 @@ def f4():
     pass
 
 
-def make_spec(kind):
+UI = {'swagger': openapi.SwaggerUI, 'rapidoc': openapi.RapiDoc, 'redoc': openapi.ReDoc}
+
+
+def make_spec(kind, ui='none'):
+    if kind != 'openrpc' and ui != 'none':
+        return openapi.OpenAPI(info=openapi.Info(title='t', version='1'), path='/spec.json', openapi='3.1.0' if kind == 'openapi31' else '3.0.3',
+                               schema_extractor=pex.PydanticSchemaExtractor(), ui=UI[ui](), ui_path='/ui/')
     if kind == 'openrpc':
         return openrpc.OpenRPC(info=openrpc.Info(title='t', version='1'), path='/spec.json', schema_extractor=pex.PydanticSchemaExtractor())
     return openapi.OpenAPI(info=openapi.Info(title='t', version='1'), path='/spec.json', openapi='3.1.0' if kind == 'openapi31' else '3.0.3',
@@ -46,7 +52,7 @@ def keys_of(doc, kind, base):
 
 def run(scn_wrap, loop):
     s = scn_wrap['scn']
-    spec = make_spec(s['kind'])
+    spec = make_spec(s['kind'], s.get('ui', 'none'))
     base = s['base']
     ev = []
 
@@ -67,8 +73,8 @@ def run(scn_wrap, loop):
         j.init_app(app)
         client = app.test_client()
 
-        def get():
-            r = client.get(base + '/spec.json')
+        def get(path=base + '/spec.json'):
+            r = client.get(path)
             return r.status_code, r.headers.get('Content-Type', ''), r.get_data()
         direct = lambda: j.generate_spec(spec, path=base)      # noqa: E731
         closer = None
@@ -88,9 +94,9 @@ def run(scn_wrap, loop):
             return c
         client = loop.run_until_complete(mk())
 
-        def get():
+        def get(path=base + '/spec.json'):
             async def go():
-                async with client.get(base + '/spec.json') as r:
+                async with client.get(path) as r:
                     return r.status, r.headers.get('Content-Type', ''), await r.read()
             return loop.run_until_complete(go())
         direct = lambda: j.generate_spec(spec, path=base)      # noqa: E731
@@ -105,6 +111,12 @@ def run(scn_wrap, loop):
             ref = json.loads(json.dumps(direct(), cls=specs.JSONEncoder))
             ev.append({'ev': 'Get', 'status': status, 'ctype': 'json' if ctype.split(';')[0].strip() == 'application/json' else 'other',
                        'keys': keys_of(doc, s['kind'], base), 'same_as_direct': doc == ref})
+        if s.get('ui', 'none') != 'none':
+            for which, path in (('slash', base + '/ui/'), ('index', base + '/ui/index.html')):
+                status, ctype, body = get(path)
+                text = body.decode('utf-8', 'replace')
+                ev.append({'ev': 'Ui', 'which': which, 'status': status, 'ctype': 'html' if ctype.split(';')[0].strip() == 'text/html' else 'other',
+                           'points_at_spec': (base + '/spec.json') in text})
     finally:
         if closer is not None:
             loop.run_until_complete(closer.close())
